@@ -392,6 +392,8 @@ Proof.
   - (* SUnwatch *) intros H; inversion H; subst. apply bal_quiet; try reflexivity. apply pending_upd_actor; keep.
   - intros H; inversion H; subst. apply bal_refl.
   - intros H; inversion H; subst. apply bal_refl.
+  - (* SResumeReq *) destruct (a_st a); intros H; inversion H; subst; try apply bal_refl.
+    apply bal_quiet; try reflexivity. apply deliver_sys_pending.
 Qed.
 
 (* the user message e has been taken out of the mailbox by the caller *)
